@@ -150,37 +150,91 @@ def run(ctx) -> None:
             asg = [s_ for s_ in l.body if isinstance(s_, ast.Assign) and norm(s_.targets[0]) == work]
             okperm = False
             if len(asg) == 1:
+                from .axes import apply_reorder
                 v_ = TS.resolve(asg[0].value, TS.cfg.node(asg[0]))
-                m_ = pmatch(v_, f"self.rotate({work}.transpose(P1_)).transpose(P2_)", {"P1_", "P2_"})
-                if m_ and m_[0][0] is v_:
-                    p1e, p2e = (ast.parse(m_[0][1][k_], mode="eval").body for k_ in ("P1_", "P2_"))
+                rot = [c_ for c_ in ast.walk(v_) if isinstance(c_, ast.Call) and norm(c_.func) == "self.rotate" and len(c_.args) == 1]
+                if len(rot) == 1:
                     okperm = True
                     for nd in range(1, 6):
                         for ax in range(nd):
                             env = {l.target.id: ax, "__ndim__": nd}
+                            seen_rot = []
 
-                            def fold(e_):
-                                e2 = ast.parse(norm(e_).replace(f"len({work}.shape)", f"{work}.ndim").replace(f"np.ndim({work})", f"{work}.ndim"), mode="eval").body
-                                return _fold_int_tuple(e2, env)
+                            def opaque(call, labels, seen_rot=seen_rot):
+                                if norm(call.func) == "self.rotate":
+                                    seen_rot.append(labels)
+                                    return labels      # rotate acts on the last axis and keeps the axis order
+                                return None
                             try:
-                                p1, p2 = fold(p1e), fold(p2e)
+                                out_ = apply_reorder(v_, work, tuple(range(nd)), env, opaque)
                             except AnalysisError:
-                                okperm = False
-                                break
-                            comp = tuple(p1[j] for j in p2) if len(p1) == len(p2) == nd else None
-                            if comp != tuple(range(nd)) or p1[-1] != ax:
+                                out_ = None
+                            # the rotated (last) axis must be the loop's axis; afterwards every axis is back in place
+                            if out_ != tuple(range(nd)) or len(seen_rot) != 1 or seen_rot[0][-1] != ax:
                                 okperm = False
             oktt = okit and okperm
             why = "" if oktt else f"loop `{it}`, permutations ok: {okperm}"
         for flag, fn_ in (("self.TR", trp), ("self.Inv", invp)):
             cs_ = [c_ for c_ in ast.walk(ttf.node) if isinstance(c_, ast.Call) and isinstance(c_.func, ast.Name) and c_.func.id == fn_ and c_.args and norm(c_.args[0]) == work]
-            okc = len(cs_) == 1 and any(t_ == flag and p_ for t_, p_, _ in TS.conditions(enclosing(TS.pm, cs_[0], ast.stmt), resolve=False)) and \
-                len([1 for t_, p_, _ in TS.conditions(enclosing(TS.pm, cs_[0], ast.stmt), resolve=False)]) == 1
+            cds_ = TS.conditions(enclosing(TS.pm, cs_[0], ast.stmt), resolve=False) if len(cs_) == 1 else []
+            # besides the flag only input-validation guards (`if …: raise`) may stand between the entry and the call
+            others_ = [n_ for t_, p_, n_ in cds_ if not (t_ == flag and p_)
+                       and not (isinstance(TS.pm.get(n_), ast.If) and TS.pm[n_].body and all(isinstance(b_, ast.Raise) for b_ in TS.pm[n_].body)
+                                and not TS.pm[n_].orelse)]
+            okc = len(cs_) == 1 and any(t_ == flag and p_ for t_, p_, _ in cds_) and not others_
             oktt = oktt and okc
             why = why or ("" if okc else f"{fn_}({work}) is not applied exactly when {flag}")
     r1.check(oktt,
              "transform_tensor: rotate the last `rank` axes, then apply the TR / inversion transform iff the operation contains it", ttf, ttf.node,
              f"transform_tensor no longer rotates exactly the tensor axes and applies TR/Inv transforms conditionally on the operation ({why})", stmt="transform_tensor")
+
+    # Transform.__call__: the trailing len(transpose_axes) axes are permuted as res.transpose would (new axis j ← old axis axes[j])
+    tcl = idx.function(PS, "Transform.__call__")
+    TCS = Sem(idx, tcl)
+    resn = tcl.params[1]
+    TCS.keep_names = {resn}
+    used_axes = set()
+    for m_ in idx.modules.values():
+        for c_ in ast.walk(m_.tree):
+            if isinstance(c_, ast.Call) and call_name(c_).split(".")[-1] == "Transform":
+                for k_ in c_.keywords:
+                    if k_.arg == "transpose_axes" and isinstance(k_.value, (ast.Tuple, ast.List)) and all(isinstance(x_, ast.Constant) for x_ in k_.value.elts):
+                        used_axes.add(tuple(x_.value for x_ in k_.value.elts))
+    if len(used_axes) < 3:
+        raise AnalysisError(f"Transform(transpose_axes=…) instances not found (got {sorted(used_axes)})")
+    tstores = []
+    for s_ in stmts(tcl.node):
+        if isinstance(s_, ast.Assign) and isinstance(s_.targets[0], ast.Subscript) and norm(s_.targets[0].value) == resn \
+                and any(t_ == "self.transpose_axes is None" and not p_ for t_, p_, _ in TCS.conditions(s_, resolve=False)):
+            tstores.append(s_)
+    oktr, whytr = len(tstores) == 1, "the store under `self.transpose_axes is not None` was not found exactly once"
+    if oktr:
+        from .axes import apply_reorder
+        v_ = TCS.resolve(tstores[0].value, TCS.cfg.node(tstores[0]))
+        whytr = ""
+        for axes_ in sorted(used_axes):
+            for d0 in range(0, 3):
+                nd = d0 + len(axes_)
+                env = {"self.transpose_axes": tuple(axes_), "__ndim__": nd}
+                try:
+                    out_ = apply_reorder(v_, resn, tuple(range(nd)), env)
+                except AnalysisError as ex_:
+                    out_ = None
+                    whytr = whytr or f"cannot evaluate `{norm1(v_, 80)}` ({ex_})"
+                want_ = tuple(range(d0)) + tuple(d0 + a_ for a_ in axes_)
+                if out_ is None:
+                    oktr = False
+                    if not whytr:
+                        whytr = f"`{norm1(v_, 80)}` is not a re-ordering of `{resn}`"
+                elif out_ != want_:
+                    oktr = False
+                    whytr = whytr or f"transpose_axes={axes_} on a {nd}-dimensional array gives the axis order {out_}, expected {want_}"
+    if not oktr and whytr.startswith("cannot evaluate"):
+        r1.expect(False, "", tcl, tstores[0] if tstores else tcl.node, f"Transform.__call__: {whytr}")
+    else:
+        r1.check(oktr, "Transform.__call__ permutes the trailing cartesian axes as declared by transpose_axes", tcl, tstores[0] if tstores else tcl.node,
+                 f"Transform.__call__ does not apply the declared transposition to the trailing axes: {whytr} — quantities whose TR / inversion rule "
+                 f"contains a transposition are symmetrised with the wrong index permutation", stmt="Transform transpose")
 
     # ---------------------------------------------------------------- R07.2
     r2 = ctx.rule("R07.2", "group average = sum over all operations / number of operations", min_instances=2)
@@ -218,13 +272,36 @@ def run(ctx) -> None:
     runf = idx.function(RG, "run")
     cfg, du, pm = fctx(runf)
     r3.instance(runf.short)
-    force = [s for s in stmts(runf.node) if isinstance(s, ast.If) and norm(s.test) == "use_irred_kpt"
-             and any(norm(b) == "symmetrize = True" for b in s.body)]
-    rp = [s for s in stmts(runf.node) if isinstance(s, ast.Assign) and is_name(s.targets[0], "remote_parameters") and "'symmetrize': symmetrize" in norm(s.value)]
-    pathif = [s for s in stmts(runf.node) if isinstance(s, ast.If) and norm(s.test) == "isinstance(grid, Path)"]
-    okf = len(force) == 1 and len(rp) >= 1 and len(pathif) >= 1 and in_body(pathif[0].orelse, force[0]) and \
-        force[0] in pathif[0].orelse and cfg.dominates(cfg.node(pathif[0]), cfg.node(rp[0]))
-    r3.check(okf, "on a grid, `use_irred_kpt ⇒ symmetrize = True` is decided before the per-K parameters are frozen", runf, force[0] if force else runf.node,
+    RS0 = Sem(idx, runf)
+    sym_p = next((p_ for p_ in runf.params if p_ == "symmetrize"), None)
+    irr_p = next((p_ for p_ in runf.params if p_ == "use_irred_kpt"), None)
+    if sym_p is None or irr_p is None:
+        raise AnalysisError("run(): parameters symmetrize / use_irred_kpt not found")
+
+    def sym_assigns(val: bool):
+        out_ = []
+        for s_ in stmts(runf.node):
+            if isinstance(s_, ast.Assign) and len(s_.targets) == 1 and is_name(s_.targets[0], sym_p) and const_of(s_.value) is val:
+                cs_ = [(t_, p_) for t_, p_, _ in RS0.conditions(s_, resolve=False)]
+                out_.append((s_, cs_))
+        return out_
+
+    def is_path_cond(t_: str) -> bool:
+        return t_.replace(" ", "") in ("isinstance(grid,Path)", "isinstance(grid,(Path,))")
+    # the statement that freezes the per-K parameters: a dict display / dict(...) carrying symmetrize under the key 'symmetrize'
+    rp = []
+    for s_ in stmts(runf.node):
+        if isinstance(s_, ast.Assign) and s_.value is not None:
+            for d_ in ast.walk(s_.value):
+                if isinstance(d_, ast.Dict) and any(const_of(k_) == "symmetrize" and is_name(v_, sym_p) for k_, v_ in zip(d_.keys, d_.values) if k_ is not None):
+                    rp.append(s_)
+                elif isinstance(d_, ast.Call) and call_name(d_) == "dict" and any(k_.arg == "symmetrize" and is_name(k_.value, sym_p) for k_ in d_.keywords):
+                    rp.append(s_)
+    force = [(s_, cs_) for s_, cs_ in sym_assigns(True) if (irr_p, True) in cs_ and any(is_path_cond(t_) and not p_ for t_, p_ in cs_)]
+    okf = len(force) == 1 and len(rp) >= 1 and any(d_.stmt is force[0][0] for d_ in du.reaching(sym_p, cfg.node(rp[0]))) and \
+        not any(d_.kind == "assign" and d_.stmt is not force[0][0] and const_of(d_.value) is not False and d_.stmt.lineno > force[0][0].lineno
+                for d_ in du.reaching(sym_p, cfg.node(rp[0])))
+    r3.check(okf, "on a grid, `use_irred_kpt ⇒ symmetrize = True` is decided before the per-K parameters are frozen", runf, force[0][0] if force else runf.node,
              "run() can evaluate only irreducible K-points without symmetrising the per-K results (the `if use_irred_kpt: symmetrize = True` "
              "rule is missing from the grid branch or comes after remote_parameters is built): the integral over the wedge is not the "
              "integral over the zone")
@@ -263,8 +340,9 @@ def run(ctx) -> None:
     okexc = len(exc) == 1 and any(("use_irred_kpt" == t_ or t_.startswith("use_irred_kpt and") or " and use_irred_kpt" in t_) and p_ for t_, p_, _ in RS7.conditions(enclosing(pm, exc[0], ast.stmt), resolve=False))
     r3.check(okflag and okexc, "initial reduction, refinement and merging all follow use_irred_kpt", runf, (exc[0] if exc else runf.node),
              "the initial K-list, the refinement and the merging of new points do not use the same use_irred_kpt flag", stmt="use_irred_kpt plumbing")
-    tr = norm(runf.node).replace(" ", "")
-    r3.check("ifsymmetrize:print('SymmetrizationswitchedoffforPath')symmetrize=False" in tr.replace("\n", ""), "paths are never symmetrised", runf, runf.node,
+    off = [(s_, cs_) for s_, cs_ in sym_assigns(False) if any(is_path_cond(t_) and p_ for t_, p_ in cs_)]
+    okoff = len(off) >= 1 and len(rp) >= 1 and any(d_.stmt is off[0][0] for d_ in du.reaching(sym_p, cfg.node(rp[0])))
+    r3.check(okoff, "paths are never symmetrised", runf, off[0][0] if off else runf.node,
              "symmetrisation is no longer switched off for paths", stmt="path no symmetrize")
 
     # ---------------------------------------------------------------- R07.5
@@ -344,6 +422,23 @@ SELFTEST = [
     V("K result transformed as a scalar", KB, "sym.transform_tensor(data, rank=self.rank,", "sym.transform_tensor(data, rank=0,", "fire", "R07.1"),
     V("tabulated k-points not mapped", TAB, "kpoints = [sym.transform_reduced_vector(k, self.recip_lattice) for k in self.kpoints]", "kpoints = [k for k in self.kpoints]", "fire", "R07.1"),
     V("group average divided by a constant", PS, "        return sum(result.transform(s) for s in self.symmetries) / self.size", "        return sum(result.transform(s) for s in self.symmetries) / 48", "fire", "R07.2"),
+    V("symmetrisation stays on for paths", RG, "            symmetrize = False\n", "            pass\n", "fire", "R07.3"),
+    V("forced symmetrisation decided after the per-K parameters are frozen", RG, "        if use_irred_kpt:\n            symmetrize = True\n", "        pass\n", "fire", "R07.3"),
+    V("neutral: irreducible-wedge rule written as one guard", RG, "        if use_irred_kpt:\n            symmetrize = True\n", "        if use_irred_kpt and not symmetrize:\n            symmetrize = True\n", "silent"),
+    V("Transform addresses the permuted axes from the end (seeded C07-m3)", PS,
+      "            dim0 = res.ndim - len(self.transpose_axes)\n            trans = tuple(i for i in range(dim0)) + tuple(dim0 + a for a in self.transpose_axes)\n            res[:] = res.transpose(trans)\n",
+      "            source = [-1 - a for a in self.transpose_axes]\n            destination = [-1 - i for i in range(len(self.transpose_axes))]\n            res[:] = np.moveaxis(res, source, destination)\n",
+      "fire", "R07.1"),
+    V("neutral: Transform permutes the trailing axes with np.moveaxis", PS,
+      "            dim0 = res.ndim - len(self.transpose_axes)\n            trans = tuple(i for i in range(dim0)) + tuple(dim0 + a for a in self.transpose_axes)\n            res[:] = res.transpose(trans)\n",
+      "            n = len(self.transpose_axes)\n            res[:] = np.moveaxis(res, [a - n for a in self.transpose_axes], [i - n for i in range(n)])\n",
+      "silent"),
+    V("neutral: tensor axes rotated through np.moveaxis", PS,
+      "            res = self.rotate(\n                res.transpose(tuple(range(i)) + tuple(range(i + 1, dim)) +\n                              (i,))).transpose(tuple(range(i)) + (dim - 1,) + tuple(range(i, dim - 1)))\n",
+      "            res = np.moveaxis(self.rotate(np.moveaxis(res, i, -1)), -1, i)\n", "silent"),
+    V("rotated axis put back one position too early", PS,
+      "            res = self.rotate(\n                res.transpose(tuple(range(i)) + tuple(range(i + 1, dim)) +\n                              (i,))).transpose(tuple(range(i)) + (dim - 1,) + tuple(range(i, dim - 1)))\n",
+      "            res = np.moveaxis(self.rotate(np.moveaxis(res, i, -1)), -1, max(i - 1, dim - rank))\n", "fire", "R07.1"),
     V("irreducible K-points without forced symmetrisation", RG, "        if use_irred_kpt:\n            symmetrize = True\n", "", "fire", "R07.3"),
     V("Omega declared TR-even (enters through C08)", "wannierberri/formula/covariant.py",
       "        self.ndim = 1\n        self.transformTR = transform_odd\n        self.transformInv = transform_ident\n\n    def nn(self, ik, inn, out):\n        summ = np.zeros((len(inn), len(inn), 3), dtype=complex)\n\n        if self.internal_terms:\n            summ += -1j * cached_einsum(\n                \"mlc,lnc->mnc\",\n                self.D.nl(ik, inn, out)[:, :, alpha_A],\n                self.D.ln(ik, inn, out)[:, :, beta_A])",
